@@ -192,9 +192,20 @@ package dag
 // Add$1 = read closure, Add$2 = write closure, Add$3 = OnRollback, Add$4 / Add$5 = AfterCommit.
 
 // Storage-facing helpers: ASSUMED not to modify memory visible to the caller (they act on the KV store).
+// "Present" = the transactions shelf of THIS (read or write) transaction has an entry under the reference (C06 "exactly
+// once", C08): the answer is that of a Get on that shelf, any error counts as absent.
+//@ func exists
+//@   prop C06 C08
+//@   assume-benign
+//@   ensures [present-iff-the-shelf-has-the-reference] did(call (go-stoabs.Reader).Get #1) && arg(call (go-stoabs.Reader).Get #1, 0) == transactions
+//@        && same(arg(call go-stoabs.NewHashKey #1, 0), ref) && arg(call (go-stoabs.Reader).Get #1, 1) == any(ret(call go-stoabs.NewHashKey #1))
+//@        && (result <==> isNilIface(ret(call (go-stoabs.Reader).Get #1).1))
 //@ func (*dag).isPresent
-//@   trusted
-//@   benign
+//@   prop C06 C08
+//@   assume-benign
+//@   ensures [asked-of-the-transactions-shelf-of-this-tx] did(call exists #1) && result == ret(call exists #1) && same(arg(call exists #1, 1), ref)
+//@        && arg(call exists #1, 0) == ret(call (go-stoabs.ReadTx).GetShelfReader #1) && arg(call (go-stoabs.ReadTx).GetShelfReader #1, 0) == tx
+//@        && arg(call (go-stoabs.ReadTx).GetShelfReader #1, 1) == transactionsShelf
 //@ func (*dag).addSingle
 //@   prop C08
 //@   assume-benign
